@@ -1,10 +1,11 @@
 ---------------------------- MODULE ExtractTrace ----------------------------
 (* C20, part 2 - trace validation of extract_archives / extract_to_dir against the specified result.
 
-   trace lines (ndjson), two per case:
+   trace lines (ndjson): one reset line and one result line per request of the case's history (the requests are issued one
+   after the other against the same archive with the same `temp_dirs`, i.e. the per-archive temp dir is reused):
      {"ev":"reset","case":n,"hdr":{"members":[{"name":[components],"dir":b,"pre":b,"len":n,"hash":h}],
-                                   "glob":{"cls":c,"k":k},"mode":"archives"|"to_dir",...}}
-     {"ev":"result","reported":[{"m":i,"inside":b,"rel":[components],"exists":b,"len":n,"hash":h}],
+                                   "globs":[{"cls":c,"k":k},..],"mode":"archives"|"to_dir",...}}
+     {"ev":"result","req":j,"reported":[{"m":i,"inside":b,"rel":[components],"exists":b,"len":n,"hash":h}],
                     "tree":[{"rel":[components],"len":n,"hash":h}],"outside_created":[paths],"outside_changed":b}
          reported: one entry per returned path P; m = the member whose raw name joined to the temp dir IS P (0 = none),
                    inside = P (symlinks and dots resolved) lies below the temp dir, rel = that path below the temp dir,
@@ -14,9 +15,11 @@
                    absolute prefix), any pre-existing file there whose bytes changed
      {"ev":"panic","msg":..}
 
-   Contract (the statement): exactly the members in ExtractDefs!Expected are reported, each once, at
-   tempdir/<target> with the member's bytes; the temp dir contains exactly these files; nothing outside was
-   created or changed; every reported path lies inside the temp dir.
+   Contract (the statement), for EVERY request j of the history: exactly the members in ExtractDefs!Expected of
+   request j are reported, each once, at tempdir/<target> with the member's bytes (members extracted by an earlier
+   request are reported again, from the same place, bytes still identical); the temp dir contains exactly the
+   files of the requests so far (the union); nothing outside was created or changed; every reported path lies
+   inside the temp dir.
    Known finding KF_C20_ReportedPreexisting (defect #15): additionally reported paths OUTSIDE the temp dir are
    tolerated only for a matching file member whose raw name is not enclosed (absolute / climbing) and whose
    denoted path existed before the extraction - everything else must still hold.                            *)
@@ -26,23 +29,27 @@ CONSTANT KF_C20_ReportedPreexisting
 
 Rec == ndJsonDeserialize(IOEnv.TRACE)
 
-VARIABLES l, case, phase, hdr, viol, kfUsed
-vars == <<l, case, phase, hdr, viol, kfUsed>>
+VARIABLES l, case, phase, hdr, nreq, viol, kfUsed
+vars == <<l, case, phase, hdr, nreq, viol, kfUsed>>
 
-NoHdr == [members |-> <<>>, glob |-> [cls |-> "all", k |-> 0]]
-Init == l = 1 /\ case = -1 /\ phase = "idle" /\ hdr = NoHdr /\ viol = {} /\ kfUsed = {}
+NoHdr == [members |-> <<>>, globs |-> <<>>]
+Init == l = 1 /\ case = -1 /\ phase = "idle" /\ hdr = NoHdr /\ nreq = 0 /\ viol = {} /\ kfUsed = {}
 
 Ev(e) == l <= Len(Rec) /\ Rec[l].ev = e /\ l' = l + 1
 Cur == Rec[l]
 
 Reset == /\ Ev("reset")
-         /\ case' = Cur.case /\ hdr' = Cur.hdr /\ phase' = "running"
+         /\ case' = Cur.case /\ hdr' = Cur.hdr /\ phase' = "running" /\ nreq' = 0
          /\ viol' = (IF phase = "running" THEN viol \cup {case} ELSE viol)
          /\ UNCHANGED kfUsed
 
 ms == hdr.members
-g == hdr.glob
+\* the request this result line answers, what it has to report, and what has to be in the temp dir afterwards
+g == hdr.globs[nreq + 1]
 E == Expected(g, ms)
+U == UNION {Expected(hdr.globs[q], ms) : q \in 1..(nreq + 1)}
+NextReq == nreq < Len(hdr.globs) /\ Cur.req = nreq + 1
+Advance == nreq' = nreq + 1 /\ phase' = (IF nreq + 1 = Len(hdr.globs) THEN "ended" ELSE "running")
 
 GoodReport(r) == /\ r.inside /\ r.m \in E /\ r.exists
                  /\ r.rel = Target(ms, r.m) /\ r.len = ms[r.m].len /\ r.hash = ms[r.m].hash
@@ -53,33 +60,33 @@ PreexistingReport(r) == /\ ~r.inside /\ r.m \in 1..Len(ms)
 
 Rest(rep, tree) ==
   /\ \A i \in E : Cardinality({j \in 1..Len(rep) : rep[j].m = i}) = 1
-  /\ Len(tree) = Cardinality(E)
-  /\ \A i \in E : \E j \in 1..Len(tree) : tree[j].rel = Target(ms, i) /\ tree[j].len = ms[i].len /\ tree[j].hash = ms[i].hash
+  /\ Len(tree) = Cardinality(U)
+  /\ \A i \in U : \E j \in 1..Len(tree) : tree[j].rel = Target(ms, i) /\ tree[j].len = ms[i].len /\ tree[j].hash = ms[i].hash
   /\ Cur.outside_created = <<>> /\ ~Cur.outside_changed
 
-Result == /\ Ev("result") /\ phase = "running"
+Result == /\ Ev("result") /\ phase = "running" /\ NextReq
           /\ \A j \in 1..Len(Cur.reported) : GoodReport(Cur.reported[j])
           /\ Rest(Cur.reported, Cur.tree)
-          /\ phase' = "ended" /\ UNCHANGED <<case, hdr, viol, kfUsed>>
+          /\ Advance /\ UNCHANGED <<case, hdr, viol, kfUsed>>
 
 KF_Result == /\ KF_C20_ReportedPreexisting
-             /\ Ev("result") /\ phase = "running"
+             /\ Ev("result") /\ phase = "running" /\ NextReq
              /\ \E j \in 1..Len(Cur.reported) : ~Cur.reported[j].inside
              /\ \A j \in 1..Len(Cur.reported) : GoodReport(Cur.reported[j]) \/ PreexistingReport(Cur.reported[j])
              /\ Rest(Cur.reported, Cur.tree)
              /\ kfUsed' = kfUsed \cup {[case |-> case, kf |-> "KF_C20_ReportedPreexisting"]}
-             /\ phase' = "ended" /\ UNCHANGED <<case, hdr, viol>>
+             /\ Advance /\ UNCHANGED <<case, hdr, viol>>
 
 Matched == ENABLED Result \/ ENABLED KF_Result
 Reject == /\ l <= Len(Rec) /\ Cur.ev # "reset" /\ phase = "running" /\ ~Matched
           /\ PrintT(<<"CASE_REJECTED", case, l, ToJson(Cur)>>)
           /\ l' = l + 1 /\ phase' = "rejected" /\ viol' = viol \cup {case}
-          /\ UNCHANGED <<case, hdr, kfUsed>>
+          /\ UNCHANGED <<case, hdr, nreq, kfUsed>>
 SkipRest == /\ l <= Len(Rec) /\ Cur.ev # "reset" /\ phase \in {"rejected", "ended", "idle"}
             /\ l' = l + 1
             /\ (IF phase = "ended" THEN viol' = viol \cup {case} /\ phase' = "rejected"
                                    ELSE UNCHANGED <<viol, phase>>)
-            /\ UNCHANGED <<case, hdr, kfUsed>>
+            /\ UNCHANGED <<case, hdr, nreq, kfUsed>>
 
 Next == Reset \/ Result \/ KF_Result \/ Reject \/ SkipRest
 Spec == Init /\ [][Next]_vars
